@@ -110,35 +110,41 @@ def tree_hash(paths, extra=""):
 # step 1: tables + Coq
 
 
-def gen_tables():
-    """Rebuild gentables against the current headers and refresh coq/gen/Tables.v.
-    Returns (ok, changed, message)."""
+def gen_tables(name="Tables", srcname="gentables.cpp"):
+    """Rebuild a table generator against the current headers and refresh
+    coq/gen/<name>.v.  Returns (ok, changed, message)."""
     ensure_dirs()
     with Lock("coq"):
-        exe = os.path.join(BUILD, "gentables")
-        src = os.path.join(ROOT, "tools", "gentables.cpp")
+        exe = os.path.join(BUILD, "gen_" + name)
+        src = os.path.join(ROOT, "tools", srcname)
         key = tree_hash([INC, src])
         keyf = exe + ".key"
         if not (os.path.exists(exe) and os.path.exists(keyf) and open(keyf).read() == key):
             rc, out, err = run([CXX, "-std=c++17", "-O0", "-w", "-I" + INC, src, "-o", exe], timeout=300)
             if rc != 0:
-                return False, False, "gentables does not compile against the current headers:\n" + err[-3000:]
+                return False, False, srcname + " does not compile against the current headers:\n" + err[-3000:]
             open(keyf, "w").write(key)
         rc, out, err = run([exe], timeout=120)
         if rc != 0:
-            return False, False, "gentables failed: " + err[-2000:]
-        tv = os.path.join(COQ, "gen", "Tables.v")
+            return False, False, srcname + " failed: " + err[-2000:]
+        tv = os.path.join(COQ, "gen", name + ".v")
         old = open(tv).read() if os.path.exists(tv) else None
         if old != out:
             os.makedirs(os.path.dirname(tv), exist_ok=True)
             open(tv, "w").write(out)
-            return True, old is not None, "Tables.v rewritten"
-        return True, False, "Tables.v unchanged"
+            return True, old is not None, name + ".v rewritten"
+        return True, False, name + ".v unchanged"
 
 
 def coq_makefile():
+    """_CoqProject is derived from the directory listing (one logical root Qv)."""
     mk = os.path.join(COQ, "Makefile")
     cp = os.path.join(COQ, "_CoqProject")
+    files = sorted(["gen/" + f for f in os.listdir(os.path.join(COQ, "gen")) if f.endswith(".v")]) + \
+        sorted(f for f in os.listdir(COQ) if f.endswith(".v") and not f.startswith("."))
+    want = "-Q . Qv\n" + "\n".join(files) + "\n"
+    if not os.path.exists(cp) or open(cp).read() != want:
+        open(cp, "w").write(want)
     if not os.path.exists(mk) or os.path.getmtime(mk) < os.path.getmtime(cp):
         rc, out, err = run(["coq_makefile", "-f", "_CoqProject", "-o", "Makefile"], cwd=COQ, timeout=120)
         if rc != 0:
@@ -236,14 +242,16 @@ def coq_assumptions(prop_v):
 # step 2: drivers
 
 
-def build_ocaml():
-    """(Re)build the extracted model driver when coq/model.ml changed."""
+def build_ocaml(comp):
+    """(Re)build the extracted model driver of a component when
+    coq/model_<comp>.ml (written by Extract_<comp>.v) or its glue changed."""
     ensure_dirs()
-    with Lock("ocaml"):
-        od = os.path.join(BUILD, "ocaml")
+    with Lock("ocaml_" + comp):
+        od = os.path.join(BUILD, "ocaml_" + comp)
         os.makedirs(od, exist_ok=True)
         exe = os.path.join(od, "mdriver")
-        srcs = [os.path.join(COQ, "model.mli"), os.path.join(COQ, "model.ml"), os.path.join(ROOT, "ocaml", "driver.ml")]
+        srcs = [os.path.join(COQ, "model_%s.mli" % comp), os.path.join(COQ, "model_%s.ml" % comp),
+                os.path.join(ROOT, "ocaml", "util.ml"), os.path.join(ROOT, "ocaml", comp + ".ml")]
         for s in srcs:
             if not os.path.exists(s):
                 return None, "missing " + s
@@ -251,8 +259,10 @@ def build_ocaml():
         keyf = exe + ".key"
         if os.path.exists(exe) and os.path.exists(keyf) and open(keyf).read() == key:
             return exe, "cached"
-        for s in srcs:
-            shutil.copy(s, od)
+        shutil.copy(srcs[0], os.path.join(od, "model.mli"))
+        shutil.copy(srcs[1], os.path.join(od, "model.ml"))
+        with open(os.path.join(od, "driver.ml"), "w") as f:
+            f.write(open(srcs[2]).read() + "\n" + open(srcs[3]).read())
         rc, out, err = run(["ocamlfind", "ocamlopt", "-O3", "-w", "-a", "-package", "str", "-linkpkg", "model.mli", "model.ml", "driver.ml", "-o", "mdriver"],
                            cwd=od, timeout=900)
         if rc != 0:
@@ -432,16 +442,25 @@ TRUSTED_BASE_COMMON = [
 ]
 
 
-def proof_stage(rep, prop_v, extra_targets=()):
-    """Step 1 of the protocol.  Returns dict(ok, theorems, log)."""
-    ok_t, changed, msg = gen_tables()
-    rep.notes.append("tables: " + msg)
-    res = {"ok": False, "theorems": [], "log": "", "tables_changed": changed, "tables_ok": ok_t}
-    if not ok_t:
-        res["log"] = msg
-        return res
+def proof_stage(rep, prop_v, comps, tables=(("Tables", "gentables.cpp"),), extra_targets=(), clean=False):
+    """Step 1 of the protocol: regenerate the tables, make the property file and
+    the extraction of the named components.  Returns dict(ok, theorems, log)."""
+    res = {"ok": False, "theorems": [], "log": "", "tables_changed": False, "tables_ok": True, "extract_ok": True}
+    for (name, src) in tables:
+        ok_t, changed, msg = gen_tables(name, src)
+        rep.notes.append("tables: " + msg)
+        res["tables_changed"] = res["tables_changed"] or changed
+        if not ok_t:
+            res["tables_ok"] = False
+            res["log"] = msg
+            return res
     target = prop_v.replace(".v", ".vo")
-    ok, mlog = coq_make([target, "Extract.vo"] + list(extra_targets), clean=False)
+    ex_targets = ["Extract_%s.vo" % c for c in comps]
+    ok_e, elog = coq_make(ex_targets, clean=clean)
+    res["extract_ok"] = ok_e
+    ok, mlog = coq_make([target] + list(extra_targets))
+    mlog = (elog if not ok_e else "") + mlog
+    ok = ok and ok_e
     res["log"] = mlog[-6000:]
     audit = coq_audit()
     if audit:
@@ -483,13 +502,13 @@ class DiffResult:
         self.bad = []              # malformed driver output
 
 
-def differential(comp, exe, cases, impl_args=(), env=None, eq=None, timeout=3600):
+def differential(comp, exe, cases, impl_args=(), env=None, eq=None, timeout=3600, model_args=()):
     """Run the implementation driver, then the extracted model+oracle on
     (case, impl result).  Model driver prints '<M> <S>' per line (S in {0,1})."""
     res = DiffResult()
     if not cases:
         return res
-    mexe, msg = build_ocaml()
+    mexe, msg = build_ocaml(comp)
     if mexe is None:
         raise RuntimeError("extracted model does not build: " + msg)
     impl, crashes = run_sharded(exe, list(impl_args), cases, timeout=timeout, env=env)
@@ -498,7 +517,7 @@ def differential(comp, exe, cases, impl_args=(), env=None, eq=None, timeout=3600
     for c, i in zip(cases, impl):
         tok = i.split(" ")[0] if i.startswith("CRASH") else i
         fed.append(c + " " + tok)
-    model, mcr = run_sharded(mexe, [comp], fed, timeout=timeout)
+    model, mcr = run_sharded(mexe, list(model_args), fed, timeout=timeout)
     res.n = len(cases)
     for c, i, m in zip(cases, impl, model):
         parts = m.rsplit(" ", 1)
